@@ -548,9 +548,11 @@ def stale_state_programs(g, tier, tag):
                "Point.Subtract", "Point.MultByCofactor", "Point.ScalarMult", "Point.ScalarBaseMult", "Point.MultiScalarMult",
                "Point.VarTimeMultiScalarMult", "Point.VarTimeDoubleScalarBaseMult", "Point.SetBytes.bad", "Point.SetExtendedCoordinates.bad"]
     reps = 1 if tier == "quick" else 4
+    reading = ("Point.Negate.self", "Point.Add", "Point.Subtract", "Point.MultByCofactor", "Point.ScalarMult", "Point.MultiScalarMult",
+               "Point.VarTimeMultiScalarMult", "Point.VarTimeDoubleScalarBaseMult")
     for _ in range(reps):
-        for w in writers:
-            p = g.new("%s use / overwrite by %s / use again" % (tag, w))
+        for w, variant in [(w, 0) for w in writers] + [(w, 1) for w in reading]:
+            p = g.new("%s %s / overwrite by %s / use again" % (tag, "use" if variant == 0 else "first use in place", w))
             load_point(p, "p0", any_point(rng), rng)          # V
             load_point(p, "p1", any_point(rng), rng)          # P
             load_point(p, "p2", any_point(rng), rng)          # other
@@ -604,14 +606,17 @@ def stale_state_programs(g, tier, tag):
 
             k = rng.randrange(4)
             pat = lambda v: [[v, "p2"], ["p2", v], ["p2", "p1"], [v, v]][k]
-            if rng.randrange(2):                              # otherwise the in-place call is the first use of this object
+            first_in_place = variant == 1                     # the in-place call is the first use of this object
+            if not first_in_place:
                 uses()
             p.op("Point.Set", r="p5", a=["p0"])               # a copy of V's value before the overwrite
             write("p0", "p0")                                 # in place: V is receiver (and argument where the writer reads it)
-            twice = w in ("Point.Negate.self", "Point.MultByCofactor", "Point.ScalarMult") and rng.randrange(2) == 0
+            twice = first_in_place and w in ("Point.Negate.self", "Point.MultByCofactor", "Point.ScalarMult")
             if twice:                                         # in place twice in a row
                 write("p0", "p0")
             uses()
+            if first_in_place:
+                continue
             if not w.endswith(".bad") and not twice:
                 write("p4", "p5")                             # the same operation on the copy, into a never-used receiver W
                 uses("p4", "p1")
@@ -723,8 +728,8 @@ def history_programs_scalar(g, tier, tag):
     writers = ["Invert", "Negate", "Set", "Add", "Subtract", "Multiply", "MultiplyAdd", "SetCanonicalBytes", "SetUniformBytes",
                "SetBytesWithClamping", "SetCanonicalBytes.bad"]
     for _ in range(1 if tier == "quick" else 6):
-        for w in writers:
-            p = g.new("%s scalar use / overwrite by %s / use again" % (tag, w))
+        for w, variant in [(w, 0) for w in writers] + [(w, 1) for w in ("Invert", "Negate", "Add", "Subtract", "Multiply", "MultiplyAdd")]:
+            p = g.new("%s scalar %s / overwrite by %s / use again" % (tag, "use" if variant == 0 else "first use in place", w))
             load_scalar(p, "s0", scalar_val(rng), rng)
             load_scalar(p, "s1", scalar_val(rng), rng)
 
@@ -763,14 +768,16 @@ def history_programs_scalar(g, tier, tag):
 
             k = rng.randrange(12)
             wide = bytes(rng.randrange(256) for _ in range(64))
-            if k % 2 == 0:                       # otherwise the in-place call is the first time the library sees this value
+            if variant == 0:                     # otherwise the in-place call is the first time the library sees this value
                 uses()
             p.op("Scalar.Set", r="s5", a=["s0"])
             write("s0", "s0")
-            twice = w in ("Invert", "Negate") and k % 4 < 2
+            twice = w in ("Invert", "Negate") and variant == 1
             if twice:                            # in place twice in a row
                 write("s0", "s0")
             uses()
+            if variant == 1:
+                continue
             if w in ("Invert", "Negate"):        # the same writer again, on what it just produced (not in place, then in place)
                 p.op("Scalar." + w, r="s3", a=["s0"])
                 write("s0", "s0")
@@ -788,8 +795,9 @@ def history_programs_elem(g, tier, tag):
     writers = ["Invert", "Square", "Negate", "Absolute", "Pow22523", "Set", "Add", "Subtract", "Multiply", "Mult32", "SqrtRatio.u",
                "SqrtRatio.v", "Select", "Swap", "SetBytes", "SetWideBytes", "Zero", "One"]
     for _ in range(1 if tier == "quick" else 6):
-        for w in writers:
-            p = g.new("%s element use / overwrite by %s / use again" % (tag, w))
+        for w, variant in [(w, 0) for w in writers] + [(w, 1) for w in ("Invert", "Square", "Negate", "Absolute", "Pow22523", "Add", "Subtract",
+                                                                        "Multiply", "Mult32", "SqrtRatio.u", "SqrtRatio.v")]:
+            p = g.new("%s element %s / overwrite by %s / use again" % (tag, "use" if variant == 0 else "first use in place", w))
             load_elem(p, "e0", field_val(rng), rng)
             load_elem(p, "e1", field_val(rng), rng)
 
@@ -841,14 +849,16 @@ def history_programs_elem(g, tier, tag):
             k = rng.randrange(12)
             y32 = rng.choice([0, 1, 2, 19, 38, 2**31, 2**32 - 1, rng.randrange(2**32)])
             wide = bytes(rng.randrange(256) for _ in range(64))
-            if k % 2 == 0:
+            if variant == 0:
                 uses()
             p.op("Elem.Set", r="e5", a=["e0"])
             write("e0", "e0")
-            twice = w in ("Invert", "Negate") and k % 4 < 2
+            twice = w in ("Invert", "Negate") and variant == 1
             if twice:
                 write("e0", "e0")
             uses()
+            if variant == 1:
+                continue
             if w in ("Invert", "Square", "Negate", "Absolute", "Pow22523"):
                 p.op("Elem." + w, r="e3", a=["e0"])
                 write("e0", "e0")
